@@ -170,6 +170,33 @@ func checkC05(c *hx.Ctx) {
 			} else {
 				c.Count("out_of_window:" + j.kind)
 			}
+			if t >= 4 && t < 1<<39 && (j.from != 0 || j.until != 0) {
+				// the same grid point with an ordinary, effective update anchored before the windowed operation: whatever the
+				// window says about the later operation, nothing else may happen to the earlier one
+				up := j.u.MkSigned("earlier-upd", "update", j.u.U[0], "", j.u.U[2].Commitment(j.u.Code), []interface{}{patchAddServices(svcEntry("kept", "t", "https://kept.example"))}, SignedOpts{})
+				up.MaxDelta = D
+				var later *ref.Op
+				switch j.kind {
+				case "update":
+					later = j.u.MkSigned("later-"+j.op.Label, "update", j.u.U[2], "", j.u.U[1].Commitment(j.u.Code), []interface{}{patchAddServices(svcEntry("w2", "win", "https://window2.example"))}, SignedOpts{From: j.from, Until: j.until})
+				default:
+					later = j.op
+				}
+				lt := *later
+				lt.MaxDelta = D
+				cr3 := *Place(createOp[j.u], 1, 0, "ref0", p.GenesisTime)
+				cr3.MaxDelta = D
+				H3 := []*ref.Op{&cr3, Place(up, 2, 0, "refU", p.GenesisTime), Place(&lt, uint64(t), 1, "ref1", p.GenesisTime)}
+				st3, merr3 := ref.Resolve(H3, ref.ResolveOpts{})
+				rm3, err3 := SUTResolve(pc, j.u.Suffix, H3, nil)
+				c.Eval()
+				if w3, g3 := stKey(st3, merr3), rmKey(rm3, err3); w3 != g3 {
+					c.Violation(fmt.Sprintf("C05 wrong effect when an effective update precedes the windowed %s anchored at %d (model says in-window=%v): %s\n   model:   %s\n   library: %s", j.kind, t, in, gridPt, w3, g3),
+						map[string]interface{}{"grid": gridPt, "anchoring_time": t, "history": replayOps(H3), "model": w3, "library": g3})
+					return
+				}
+				c.Count("grid_points_with_an_earlier_update")
+			}
 			if !in && j.from != 0 {
 				// the interim copy of the same operation is still in the unpublished store, stamped with its intake time
 				// (inside the window): the anchored copy decides, the interim copy must not resurrect the effect
@@ -202,6 +229,7 @@ func checkC05(c *hx.Ctx) {
 	c05TwoVersions(c)
 	c.Floor("two_version_points_where_versions_disagree", 20)
 	c.Floor("out_of_window_with_interim_copy", 100)
+	c.Floor("grid_points_with_an_earlier_update", 500)
 	for _, k := range []string{"update", "recover", "deactivate"} {
 		c.Floor("in_window:"+k, 100)
 		c.Floor("out_of_window:"+k, 100)
